@@ -163,7 +163,7 @@ var clauseKeywords = map[string]bool{
 	"inline": true, "pure": true, "requires": true, "ensures": true, "modifies": true, "panics": true,
 	"ghost": true, "loop": true, "invariant": true, "decreases": true, "unroll": true, "lemma": true,
 	"axiom": true, "package": true, "global": true, "trusted": true, "ghostfield": true, "opaque": true,
-	"timeout": true, "noframe": true, "end": true, "ghostglobal": true, "monitor": true, "ghostexit": true, "devirt": true,
+	"timeout": true, "noframe": true, "end": true, "ghostglobal": true, "monitor": true, "ghostexit": true, "devirt": true, "transparent": true,
 }
 
 type specLine struct {
@@ -602,6 +602,11 @@ func (sp *Specs) ParseSpecText(lines []specLine, file, pkgPath string) error {
 				return errf("bad ghost field type: %v", err)
 			}
 			sp.Ghosts[pkgPath+"."+tf[0]+"."+tf[1]] = &GhostField{PkgPath: pkgPath, TypeName: tf[0], Field: tf[1], Type: te, Alias: alias}
+		case "transparent":
+			// external struct types whose fields are modelled (all others are opaque scalars)
+			for _, n := range strings.Fields(s.rest) {
+				transparentTypes[n] = true
+			}
 		case "ghostglobal":
 			f := strings.Fields(s.rest)
 			if len(f) < 2 {
